@@ -356,7 +356,7 @@ fn gen_leaf(rng: &mut Rng, ntests: usize, nacts: usize) -> String {
     }
 }
 
-fn gen_list(rng: &mut Rng, out: &mut Vec<String>, budget: usize, depth: usize, nt: usize, na: usize) {
+pub fn gen_list(rng: &mut Rng, out: &mut Vec<String>, budget: usize, depth: usize, nt: usize, na: usize) {
     let parts = 1 + if rng.chance(1, 5) { rng.below(2) + 1 } else { 0 };
     for p in 0..parts {
         if p > 0 {
